@@ -348,10 +348,11 @@ func (t *sseClientTransport) handleResponse(data string) {
 	// Get the response ID as a string.
 	idStr := requestIDKey(response.ID)
 
-	// Find the corresponding response channel.
+	// Find the corresponding response channel. The lock is held until the answer has been handed
+	// over (the send never blocks): close() closes the pending channels under the write lock.
 	t.responsesMu.RLock()
+	defer t.responsesMu.RUnlock()
 	responseChan, ok := t.responses[idStr]
-	t.responsesMu.RUnlock()
 
 	if !ok {
 		if t.logger != nil {
